@@ -1,8 +1,66 @@
 package main
 
-import "fmt"
+import (
+	"fmt"
+)
 
+// cmdSelftest checks the solver back ends and the term layer on fixed queries with known answers.
+// (The interpreter itself is validated on every check by native replay of counterexamples and of sampled passing paths.)
 func cmdSelftest(args []string) int {
-	fmt.Println("selftest: TODO")
+	fail := 0
+	report := func(name string, ok bool, detail string) {
+		if ok {
+			fmt.Printf("selftest ok   %s\n", name)
+		} else {
+			fmt.Printf("selftest FAIL %s %s\n", name, detail)
+			fail++
+		}
+	}
+	for _, kind := range []string{"z3", "cvc5", "z3-new"} {
+		s, err := NewSolver(kind, 20000)
+		if err != nil {
+			report(kind+" starts", false, err.Error())
+			continue
+		}
+		x := Var("x", SortBV(64))
+		y := Var("y", SortBV(32))
+		// int32 truncation of 2^31 is negative (the D4 defect shape)
+		trunc := Extract(x, 31, 0)
+		q := And(Eq(x, BVConst(1<<31, 64)), BVCmp("bvslt", trunc, BVConst(0, 32)))
+		r, m, err := s.Check([]*Term{q}, []*Term{x})
+		report(kind+" sat+model", r == Sat && err == nil && m["x"] != nil && m["x"].BV == 1<<31, fmt.Sprint(r, err))
+		// x+1 > x is not valid for wrapping integers
+		r, _, _ = s.Check([]*Term{Not(BVCmp("bvsgt", BVBin("bvadd", x, BVConst(1, 64)), x))}, nil)
+		report(kind+" wraparound", r == Sat, r.String())
+		// zero-extension is monotone
+		r, _, _ = s.Check([]*Term{BVCmp("bvult", ZeroExt(y, 64), BVConst(0, 64))}, nil)
+		report(kind+" unsat", r == Unsat, r.String())
+		// strings
+		a, b := Var("a", SortString), Var("b", SortString)
+		r, _, _ = s.Check([]*Term{And(StrContains(a, b), And(StrIsLowerLiteral(b), Not(Eq(b, StrConst("")))))}, []*Term{a, b})
+		report(kind+" strings", r == Sat, r.String())
+		// push/pop isolation
+		s.Assert(Eq(x, BVConst(5, 64)))
+		r, _, _ = s.Check([]*Term{Eq(x, BVConst(6, 64))}, nil)
+		r2, _, _ := s.Check(nil, nil)
+		report(kind+" incremental", r == Unsat && r2 == Sat, fmt.Sprint(r, r2))
+		s.Close()
+	}
+	// symbolic multiplication through cvc5's integer encoding: injectivity of i*n+v under the no-overflow bound
+	nv, ni := Var("nv", SortBV(32)), Var("ni", SortBV(32))
+	a, b, c, d := Var("a", SortBV(32)), Var("b", SortBV(32)), Var("c", SortBV(32)), Var("d", SortBV(32))
+	total := BVBin("bvmul", ZeroExt(nv, 64), ZeroExt(ni, 64))
+	pre := []*Term{BVCmp("bvult", total, BVConst(1<<32, 64)), BVCmp("bvult", a, nv), BVCmp("bvult", b, nv), BVCmp("bvult", c, ni), BVCmp("bvult", d, ni)}
+	p1 := BVBin("bvadd", BVBin("bvmul", c, nv), a)
+	p2 := BVBin("bvadd", BVBin("bvmul", d, nv), b)
+	neg := And(Eq(p1, p2), Not(And(Eq(a, b), Eq(c, d))))
+	r, _, err := OneShotCVC5Int(append(pre, neg), nil, 60000)
+	report("cvc5 integer encoding: flat index injective", r == Unsat, fmt.Sprint(r, err))
+	r, _, err = OneShotCVC5Int(append(pre[1:], neg), []*Term{nv, ni}, 60000)
+	report("cvc5 integer encoding: wrap-around counterexample without the bound", r == Sat, fmt.Sprint(r, err))
+	if fail > 0 {
+		return 2
+	}
+	fmt.Println("selftest: all back ends agree with the expected answers")
 	return 0
 }
